@@ -495,6 +495,34 @@ func propC29(c *Check) {
 		c.NoSharedWrites(c.F(n), "kernel", []string{"logger."}, "the election memoises nothing: the same (membership, time) gives the same node on every process")
 	}
 	stateSequencesRule(c)
+	// the per-class snapshot validators (which enforce the elected operator and the operation
+	// windows) are honoured: in validateKernelSnapshot no accepting return is reachable from a
+	// validator call without passing its `err != nil => reject` edge
+	if f := c.F("(*kernel.Node).validateKernelSnapshot"); f != nil {
+		n := 0
+		for _, v := range []string{"validateMintSnapshot", "validateNodePledgeSnapshot", "validateNodeCancelSnapshot", "validateNodeAcceptSnapshot", "validateNodeRemoveSnapshot", "validateCustodianUpdateNodes"} {
+			for _, ci := range findCalls(f, "(*kernel.Node)."+v) {
+				n++
+				call := ci.(*ssa.Call)
+				c.mustPassFrom(f, call.Block(), Gate{Name: v + " err != nil => reject", RejectOnTrue: true, Cond: BinEither(token.NEQ, Is(call), ConstNil)}, acceptReturns(f), "accepting the snapshot after "+v)
+			}
+		}
+		c.Require(n == 6, "shape", shortName(f)+"|six class validators", "mint, pledge, cancel, accept, remove and custodian update each have their snapshot validator called", "found "+itoa(n))
+	}
+	// only the elected node may propose an elected operation: each validator rejects unless the
+	// snapshot's node is electSnapshotNode(<its class>, timestamp)
+	for _, e := range []struct{ fn, class, snap string }{
+		{"(*kernel.Node).validateMintSnapshot", "TransactionTypeMint", "snap"},
+		{"(*kernel.Node).validateNodePledgeSnapshot", "TransactionTypeNodePledge", "s"},
+		{"(*kernel.Node).validateNodeRemoveSnapshot", "TransactionTypeNodeRemove", "s"},
+		{"(*kernel.Node).validateCustodianUpdateNodes", "TransactionTypeCustodianUpdateNodes", "s"},
+	} {
+		if f := c.F(e.fn); f != nil {
+			eid := Call("(*kernel.Node).electSnapshotNode", Param("node"), w.ConstNamed("common", e.class))
+			c.MustPass(f, Gate{Name: "electSnapshotNode(" + e.class + ", timestamp) != snapshot.NodeId => reject", RejectOnTrue: true,
+				Cond: BinEither(token.NEQ, eid, Path(Param(e.snap), "NodeId"))}, acceptReturns(f), "accepting the operation's snapshot")
+		}
+	}
 	if f := c.F("(*kernel.Node).electSnapshotNode"); f != nil {
 		list := Call("(*kernel.Node).NodesListWithoutState", Param("node"), Param("now"), ConstBool(true))
 		sl := func(v ssa.Value) bool {
